@@ -65,8 +65,9 @@ void ares_timeval_remaining(ares_timeval_t *remaining, const ares_timeval_t *now
   VP_ASSERT(W_timeout_ms >= 0 && W_tvnow_calls >= 2, "remaining time is computed only for a timed wait, after the deadline was fixed");
   VP_ASSERT(now->sec == W_last_now.sec && now->usec == W_last_now.usec && W_mx_depth == 1,
             "the remaining time is computed from a fresh clock read, under the mutex");
-  VP_ASSERT(tout->sec * 1000000 + (ares_int64_t)tout->usec == W_dl_sec * 1000000 + (ares_int64_t)W_dl_usec,
-            "the deadline is the function's first clock read plus timeout_ms");
+  VP_ASSERT((tout->sec == W_dl_sec && tout->usec == W_dl_usec) ||
+              (W_deadline_carry && tout->sec + 1 == W_dl_sec && tout->usec == W_dl_usec + 1000000),
+            "the deadline is the function's first clock read plus timeout_ms (same instant, normalised or not)");
   VP_ASSERT(tout->usec < 1000000,
             "FINDING waitempty_early_timeout: the deadline handed to ares_timeval_remaining() is not normalised "
             "(usec >= 1000000): as soon as the clock's second exceeds tout.sec it is called expired although up to "
